@@ -82,10 +82,19 @@ impl DynGroup {
             affected_uuids.insert(uuid);
 
             // Apply the filter and get all the uuids that are members of this dyngroup.
-            let entries = qs.internal_search(scope_i.clone()).map_err(|e| {
-                error!("internal search failure -> {:?}", e);
-                e
-            })?;
+            // The filter is built from its proto form and carries no recycled/tombstone mask:
+            // searched as is, it also returns deleted (recycled) entries, which would become
+            // members of the group. Mask hidden entries as every external search does.
+            let scope_v = scope_i
+                .validate(qs.get_schema())
+                .map_err(OperationError::SchemaViolation)?
+                .into_ignore_hidden();
+            let entries = qs
+                .search(&crate::event::SearchEvent::new_internal(scope_v))
+                .map_err(|e| {
+                    error!("internal search failure -> {:?}", e);
+                    e
+                })?;
 
             trace!(entries_len = %entries.len());
 
